@@ -133,3 +133,163 @@ def _mentions(value, needle, depth=0):
     if isinstance(value, (tuple, list)):
         return any(_mentions(x, needle, depth + 1) for x in value)
     return False
+
+
+# ---------------------------------------------------------------------------------------------
+# _convolve_model_dir_1 (per-file packages)
+# ---------------------------------------------------------------------------------------------
+
+def _v1_item(c, it):
+    k = Sc(fresh_int('im'))
+    seq = it.inner
+    c.interp.v1_models = it
+    c.st.assume_pc(band(compare('<=', 0, k), compare('<', k, seq.length)))
+    return (k, seq.item(k))
+
+
+def _v1_havoc(c):
+    """The state an iteration may leave behind: the filters are binned to SOME grid (recorded in the ghost
+    provenance map), the output arrays hold arbitrary values."""
+    env = c.st.env
+    filt = c.st.heap[env['filters'].addr].items
+    Gn = c.int('binned_grid_n')
+    c.assume(Gn >= 1)
+    G = Quantity(c.fresh_array('binned_grid', (Gn,)), U['Hz'])
+    bfs = []
+    ghost = c.interp.__dict__.setdefault('rebin_ghost', {})
+    for i, f in enumerate(filt):
+        b = c.obj(FILTER, name=c.attr(f, 'name'), _wavelength=c.attr(f, '_wavelength'), _nu=G, _r=c.fresh_array('binned_r%d' % i, (Gn,)))
+        ghost[b.addr] = (f, G)
+        bfs.append(b)
+    env['binned_filters'] = c.list(bfs)
+    env['binned_nu'] = G
+    fl = c.st.heap[env['fluxes'].addr].items
+    for i, cf in enumerate(fl):
+        for attr, nm in (('_flux', 'flux'), ('_error', 'error')):
+            q = c.attr(cf, attr)
+            shape = c.A(q).shape
+            c.set_attr(cf, attr, Quantity(c.fresh_array('out_%s%d' % (nm, i), shape), q.unit))
+        nmq = c.attr(cf, '_model_names')
+        c.set_attr(cf, '_model_names', c.fresh_array('out_names%d' % i, c.A(nmq).shape, 'int'))
+        c.set_attr(cf, '_wavelength', c.attr(filt[i], '_wavelength'))
+
+
+def _same_grid(c, s, g1, g2):
+    if g1 is g2 or (isinstance(g1, Quantity) and isinstance(g2, Quantity) and g1.value is g2.value and g1.unit is g2.unit):
+        return True
+    if not (isinstance(g1, Quantity) and isinstance(g2, Quantity)):
+        return False
+    cs = Ctx(c.interp, s, c.fr)
+    A1, A2 = cs.A(g1), cs.A(g2)
+    k1, k2 = g1.unit.scale, g2.unit.scale
+    return [compare('==', A1.n, A2.n), cs.forall(A1.n, lambda k: A1[k] * k1 == A2[k] * k2, 'same grid')]
+
+
+def _v1_check(c, paths):
+    obs = []
+    e0 = c.st.env
+    it = c.interp.v1_models
+    obs.append((c.st, 'every_sed_file_is_visited_with_its_position', it.inner is e0['sed_files'] and it.start == 0))
+    filt = c.st.heap[e0['filters'].addr].items
+    outs = c.st.heap[e0['fluxes'].addr].items
+    im = e0['im']
+    ghost = c.interp.__dict__.get('rebin_ghost', {})
+    for s, ev, status in paths:
+        if status != 'run':
+            obs.append((s, 'iteration_completes', False))
+            continue
+        cs = Ctx(c.interp, s, c.fr)
+        sed = s.env['s']
+        reads = [e for e in ev if e[0] == 'call' and e[1] == SED + '.read']
+        obs.append((s, 'reads_the_sed_file_of_this_position', len(reads) == 1 and reads[0][2]['filename'] is e0['sed_file']))
+        F, E = cs.A(cs.attr(sed, '_flux')), cs.A(cs.attr(sed, '_error'))
+        A, W = F.shape
+        bl = s.env['binned_filters']
+        bfs = s.heap[bl.addr].items if isinstance(bl, ListRef) else []
+        obs.append((s, 'one_binned_filter_per_filter', len(bfs) == len(filt)))
+        if len(bfs) != len(filt):
+            continue
+        for i, b in enumerate(bfs):
+            src, grid = ghost.get(b.addr, (None, None))
+            obs.append((s, 'filter_%d_is_rebinned_from_filter_%d' % (i, i), src is not None and src.addr == filt[i].addr))
+            obs.append((s, 'filter_%d_is_binned_to_the_frequencies_of_this_sed' % i, _same_grid(c, s, grid, cs.attr(sed, '_nu')) if grid is not None else False))
+            # loop invariant assumed by the havoc: the remembered grid is the one the filters are binned to
+            obs.append((s, 'remembered_grid_is_the_grid_of_binned_filter_%d' % i, _same_grid(c, s, grid, s.env.get('binned_nu')) if grid is not None else False))
+            R = cs.A(cs.attr(b, '_r'))
+            cf = outs[i]
+            q1, q0 = cs.attr(cf, '_flux'), c.attr(cf, '_flux')
+            FL1, FL0 = cs.A(q1), c.A(q0)
+            e1_, e0_ = cs.attr(cf, '_error'), c.attr(cf, '_error')
+            ER1, ER0 = cs.A(e1_), c.A(e0_)
+            sf = cs.attr(sed, '_flux').unit.scale / q1.unit.scale
+            se = cs.attr(sed, '_error').unit.scale / e1_.unit.scale
+            M = FL0.shape[0]
+            obs.append((s, 'row_im_of_output_%d_holds_the_convolved_flux_of_this_sed' % i,
+                        cs.forall(A, (lambda FL1, R, sf: lambda a: FL1[im, a] == cs.Sum(W, lambda k: F[a, k] * R[k]) * sf)(FL1, R, sf), 'flux')))
+            obs.append((s, 'row_im_of_output_%d_holds_the_error_in_quadrature' % i,
+                        cs.forall(A, (lambda ER1, R, se: lambda a: ER1[im, a] == cs.sqrt(cs.Sum(W, lambda k: (E[a, k] * R[k]) * (E[a, k] * R[k]))) * se)(ER1, R, se), 'error')))
+            obs.append((s, 'other_rows_of_output_%d_untouched' % i,
+                        [cs.forall([M, FL0.shape[1]], (lambda FL1, FL0: lambda m, a: implies(bnot(m == im), FL1[m, a] == FL0[m, a]))(FL1, FL0), 'frame'),
+                         cs.forall([M, ER0.shape[1]], (lambda ER1, ER0: lambda m, a: implies(bnot(m == im), ER1[m, a] == ER0[m, a]))(ER1, ER0), 'frame')]))
+            N1, N0 = cs.A(cs.attr(cf, '_model_names')), c.A(c.attr(cf, '_model_names'))
+            obs.append((s, 'row_im_of_output_%d_is_labelled_with_this_sed' % i,
+                        [N1[im] == cs.attr(sed, 'name'), cs.forall(N0.n, (lambda N1, N0: lambda m: implies(bnot(m == im), N1[m] == N0[m]))(N1, N0), 'frame')]))
+            cw, fw = cs.attr(cf, '_wavelength'), c.attr(filt[i], '_wavelength')
+            obs.append((s, 'central_wavelength_of_output_%d_is_the_filters' % i, isinstance(cw, Quantity) and compare('==', cw.value * cw.unit.scale, fw.value * fw.unit.scale)))
+    return obs
+
+
+@contract
+class ConvolveV1(Contract):
+    """_convolve_model_dir_1: for the SED file at ANY position im and every filter i, row im of output i gets the
+    name of that SED and, per aperture, flux = sum_k F[a,k] R_i[k], error = sqrt(sum_k (E[a,k] R_i[k])^2), where R_i
+    is filter i re-binned to the frequencies of THAT SED (whatever grids earlier files had); other rows are
+    untouched.  Afterwards every output is sorted to the parameter-table order and written once, to the file named
+    after its filter."""
+    name = CONV + '_convolve_model_dir_1'
+    properties = ('C07', 'C06', 'C08')
+    variants = ('two_filters',)
+    loops = {2: EventLoop('models', _v1_check, havoc=_v1_havoc, item=_v1_item, peel=True)}
+    assume_pre_of = (SED + '.read', CF + '.sort_to_match')
+
+    def setup(self, c, variant):
+        from sedvc.interp import SymSeq
+        from sedvc.extmodels import table_new
+        M = c.int('n_models')
+        c.assume(M >= 1)
+        c.interp.package_conf = {'name': 'pkg'}
+        files = SymSeq(M, lambda k: Opaque('sedfile', k), 'str')
+        c.interp.ext['builtins.sorted'] = lambda interp, st, fr, args, kw: files
+        c.interp.ext['glob.glob'] = lambda interp, st, fr, args, kw: Opaque('str', 'glob')
+        c.interp.ext['os.path.exists'] = lambda interp, st, fr, args, kw: True
+        self.par_names = c.array('par_name', (M,), 'int')
+        c.interp.package_par_table = table_new(c.st, dict(MODEL_NAME=self.par_names), M)
+        # every SED file of the package has the same number of apertures (the output arrays are sized from the first
+        # file); wavelength grids may differ from file to file
+        A = c.int('n_ap')
+        c.assume(A >= 1)
+        c.interp.shared_sed_apertures = A
+        self.filters = _filters(c)
+        return dict(model_dir='MODELDIR', filters=c.list(self.filters), overwrite=False)
+
+    def requires(self, c, a):
+        return _filter_pre(c, self.filters)
+
+    def raises(self, c, a):
+        # "No SEDs found" / "Sorting failed" (parameter table and SED files do not name the same models)
+        return {'Exception': ('may', True)}
+
+    def ensures(self, c, a, result, old):
+        ev = c.st.events
+        sorts = [e for e in ev if e[0] == 'call' and e[1] == CF + '.sort_to_match']
+        writes = [e for e in ev if e[0] == 'call' and e[1] == CF + '.write']
+        outs = c.st.heap[c.st.env['fluxes'].addr].items if 'fluxes' in c.st.env else []
+        out = {'every_output_is_sorted_to_the_parameter_table_then_written_once':
+               len(sorts) == 2 and len(writes) == 2 and len(outs) == 2 and all(sorts[i][2]['self'].addr == outs[i].addr and writes[i][2]['self'].addr == outs[i].addr for i in range(2))}
+        if out['every_output_is_sorted_to_the_parameter_table_then_written_once']:
+            from sedvc.extmodels import is_table
+            par = c.interp.package_par_table
+            pcol = c.st.heap[par.addr].attrs['@cols']['MODEL_NAME']
+            out['sorted_by_the_parameter_table_names'] = all(getattr(sorts[i][2]['requested_model_names'], 'addr', 0) == getattr(pcol, 'addr', 1) for i in range(2))
+            out['files_named_after_their_filters'] = all(_mentions(writes[i][2]['filename'], c.attr(self.filters[i], 'name')) for i in range(2))
+        return out
